@@ -351,6 +351,13 @@ func (e *Executor) execute(ctx context.Context, isRootPlan bool, p *Plan, keys [
 		res = []interface{}{
 			map[string]interface{}{},
 		}
+		// The root object is not fetched from any service; the only selections
+		// planned on it are its own __typename, which the gateway answers itself.
+		for _, selection := range p.SelectionSet.Selections {
+			if selection.Name == "__typename" {
+				res[0].(map[string]interface{})[selection.Alias] = p.Type
+			}
+		}
 	}
 
 	g, ctx := errgroup.WithContext(ctx)
